@@ -578,6 +578,10 @@ func (p *AWS) authorizeToken(token string) (*awsPayload, error) {
 		return nil, errs.Unauthorized("aws.authorizeToken; invalid token - invalid audience claim (aud)")
 	}
 
+	if payload.Subject == "" {
+		return nil, errs.Unauthorized("aws.authorizeToken; aws token subject cannot be empty")
+	}
+
 	// Validate subject, it has to be known if disableCustomSANs is enabled
 	if p.DisableCustomSANs {
 		if payload.Subject != doc.InstanceID &&
